@@ -724,12 +724,14 @@ def gen_scenario(rng, mode=None, prefix=None):
     ext = ".ics" if kind == "C" else ".vcf"
     while len(names) < rng.choice([2, 3, 4]):
         n = X.rand_component(rng, 8)
-        if n not in names and n.lower() not in [m.lower() for m in names]:
-            names.append(n if rng.random() < 0.5 else n + ext)
+        if rng.random() < 0.5:
+            n += ext
+        if n.lower() not in [m.lower() for m in names]:
+            names.append(n)
     moves = []
     while len(moves) < 2:
         n = X.rand_component(rng, 8)
-        if n not in names and n not in moves:
+        if n.lower() not in [m.lower() for m in names + moves]:
             moves.append(n)
     return dict(mode=mode, prefix=prefix, user=user, col=X.rand_component(rng, 6), kind=kind, names=names, move_names=moves,
                 style=rng.choice(["strict", "pchar"]))
